@@ -712,7 +712,7 @@ def correspondence(ctx: Ctx):
         """The implementation raises on an input for which the model has an answer."""
         ctx.count_case(json.dumps(case, sort_keys=True, default=str), False)
         f = {"kind": "raises", "error": type(ex).__name__, "backend": case["backend"], "dataset_names": name_class(case),
-             "history": hist is not None}
+             "history": hist is not None, "no_threshold": bool(case.get("no_threshold"))}
         key = json.dumps(f, sort_keys=True)
         if key in reported:
             return
@@ -729,8 +729,6 @@ def correspondence(ctx: Ctx):
             try:
                 result = run_impl(case)
             except Exception as ex:  # noqa: BLE001
-                if case.get("no_threshold"):
-                    raise
                 report_raise(case, ex, None)
                 return
         trace, final = result
@@ -787,22 +785,21 @@ def correspondence(ctx: Ctx):
                 c = dict(base)
                 c["dfs"] = list(sub)
                 one(c)
-    # both thresholds are documented as optional: without one every edge is used (= threshold 0
-    # for probabilities).  Before the wrapper selected match_probability unconditionally this
-    # raised a SQL binder error (loud failure, counted, outside the property).
-    raised = 0
+    # both thresholds are documented as optional: without one every edge is used (= threshold 0 for
+    # probabilities).  FX-C12-no-threshold-raises: a call that raises is reported with its input.
+    n_before = len(ctx.violations) + len(ctx.known_hits)
+    no_thr = 0
     for backend in ("duckdb", "sqlite"):
         for _ in range(6 if quick else 60):
             c = gen_case(ctx.rng, backend, ties=False)
-            c["thr"] = 0
+            c["thr"], c["thr_weight"] = 0, None
             c["no_threshold"] = True
-            try:
-                one(c)
-            except Exception as e:  # noqa: BLE001
-                if "match_probability" not in str(e):
-                    raise
-                raised += 1
+            no_thr += 1
+            one(c)
+    raised = sum(1 for k in reported if '"kind": "raises"' in k and '"no_threshold": true' in k)
+    ctx.cov["no_threshold_calls"] = no_thr
     ctx.cov["no_threshold_calls_raising_sql_error"] = raised
+    ctx.obligation("cluster_using_single_best_links without a threshold does not raise", raised == 0)
     # the witness of C12_connected_ties_refuted: try to realise it on the engines
     realised = None
     perms = 6 if quick else 120
